@@ -9,7 +9,6 @@
 #ifndef DATAARRAY_READ_INVARIANT
 #define DATAARRAY_READ_INVARIANT(v) __CPROVER_assume(-EXP_MAX <= (v) && (v) <= EXP_MAX)
 #endif
-#include "containers.h"
 #ifndef MATW
 #define MATW 3
 #endif
@@ -19,33 +18,8 @@
 struct SPxOut { static void verif_debug_sink() {} };
 #define debug(...) verif_debug_sink()
 
-template <class T> struct LPColSetBase
-{
-   DataArray<int> scaleExp;
-   VectorBase<T> low, up, object;
-   const VectorBase<T>& lower() const { return *(VectorBase<T>*)&low; }
-   const VectorBase<T>& upper() const { return *(VectorBase<T>*)&up; }
-   const VectorBase<T>& maxObj() const { return *(VectorBase<T>*)&object; }
-   const T& lower(int i) const { return low[i]; }
-   const T& upper(int i) const { return up[i]; }
-   const T& maxObj(int i) const { return object[i]; }
-   T& lower_w(int i) { return low[i]; }
-   T& upper_w(int i) { return up[i]; }
-   T& maxObj_w(int i) { return object[i]; }
-};
-template <class T> struct LPRowSetBase
-{
-   DataArray<int> scaleExp;
-   VectorBase<T> left, right, object;
-   const VectorBase<T>& lhs() const { return *(VectorBase<T>*)&left; }
-   const VectorBase<T>& rhs() const { return *(VectorBase<T>*)&right; }
-   const T& lhs(int i) const { return left[i]; }
-   const T& rhs(int i) const { return right[i]; }
-   T& lhs_w(int i) { return left[i]; }
-   T& rhs_w(int i) { return right[i]; }
-   const T& obj(int i) const { return object[i]; }
-   T& obj_w(int i) { return object[i]; }
-};
+#include "lp_parts.h"
+
 template <class T> struct SPxLPBase : LPRowSetBase<T>, LPColSetBase<T>
 {
    bool _isScaled;
@@ -61,17 +35,19 @@ template <class T> struct SPxLPBase : LPRowSetBase<T>, LPColSetBase<T>
    int nRows() const { return nr; }
    int nCols() const { return nc; }
    bool isConsistent() const { return true; }
-   const T& lhs(int i) const { return this->left[i]; }
-   const T& rhs(int i) const { return this->right[i]; }
-   const T& lower(int i) const { return this->low[i]; }
-   const T& upper(int i) const { return this->up[i]; }
-   T& lhs_w(int i) { return this->left[i]; }
-   T& rhs_w(int i) { return this->right[i]; }
-   T& lower_w(int i) { return this->low[i]; }
-   T& upper_w(int i) { return this->up[i]; }
-   T& maxObj_w(int i) { return LPColSetBase<T>::object[i]; }
-   const T& maxRowObj(int i) const { return LPRowSetBase<T>::object[i]; }
-   T& maxRowObj_w(int i) { return LPRowSetBase<T>::object[i]; }
+   LPShared<T> sh;   /* the wrapper points both bases' `d` at it: bind() */
+   void bind() { LPRowSetBase<T>::d = &sh; LPColSetBase<T>::d = &sh; }
+   const T& lhs(int i) const { return sh.left[i]; }
+   const T& rhs(int i) const { return sh.right[i]; }
+   const T& lower(int i) const { return sh.low[i]; }
+   const T& upper(int i) const { return sh.up[i]; }
+   T& lhs_w(int i) { return sh.left[i]; }
+   T& rhs_w(int i) { return sh.right[i]; }
+   T& lower_w(int i) { return sh.low[i]; }
+   T& upper_w(int i) { return sh.up[i]; }
+   T& maxObj_w(int i) { return sh.obj[i]; }
+   const T& maxRowObj(int i) const { return sh.robj[i]; }
+   T& maxRowObj_w(int i) { return sh.robj[i]; }
    SVectorBase<T>& rowVector_w(int i)
    {
       __CPROVER_assert(0 <= i && i < nr, "row number in bounds");
